@@ -624,6 +624,7 @@ func (r *seqRun) reopen(op seqOp, ev core.Ev) {
 			os.RemoveAll(cp)
 		}
 	}
+	ev["snap"] = op.Snap
 	switch op.Snap {
 	case "drop":
 		os.Remove(filepath.Join(r.dir, "index.buckets"))
